@@ -165,6 +165,7 @@ theorem regInv_step {s s' : St} (h : RegInv s) (st : Step s s') : RegInv s' := b
     · simpa [St.mapFrames] using h.sorted
     · simpa [St.mapFrames] using h.bound
   | ctl i hw _ _ => exact regInv_push_none h i hw
+  | emitRet i _ hw _ _ _ => exact regInv_push_none h i hw
   | ctlVia k i hw _ _ =>
     unfold St.pushVia
     apply regInv_push_none _ i hw
